@@ -199,7 +199,7 @@ def analyse(shell, script):
     machine, st0 = START[shell]
     step = SL.MACHINES[machine][0]
     st = st0
-    skel, offs, second = [], [], []
+    skel, offs, second, third = [], [], [], []
     seg = None          # fish: payload of the current "..." literal
     word, word_sq = None, False   # zsh: payload of the current word
     for i, c in enumerate(text):
@@ -224,6 +224,8 @@ def analyse(shell, script):
                 if st2 == "ZB" and st in ("ZB", "ZW"):
                     if word_sq:
                         second.append(("zsh-spec", i, SL.skeleton(SL.run("zspec", "ZsPre", word)[1])))
+                        for a in zsh_actions(word):
+                            third.append(("zsh-action", i, a))
                     word = None
                 else:
                     for k, x in evs:
@@ -232,7 +234,35 @@ def analyse(shell, script):
                         elif k in ("L", "S", "A"):
                             word.append(x)
         st = st2
-    return skel, offs, second, st
+    return skel, offs, second + third, st
+
+
+def zsh_actions(word):
+    """third level: the `((name\\:"tooltip" ...))` action of a spec is handed to
+    `eval ws=( ... )` by _arguments after the backslashes before colons were removed:
+    -> skeletons of the eval'd word lists of one shell word's payload"""
+    fields, cur, i = [], [], 0
+    while i < len(word):
+        c = word[i]
+        if c == 92 and i + 1 < len(word):
+            if word[i + 1] != 58:
+                cur.append(92)
+            cur.append(word[i + 1])
+            i += 2
+            continue
+        if c == 58:
+            fields.append(cur)
+            cur = []
+        else:
+            cur.append(c)
+        i += 1
+    fields.append(cur)
+    out = []
+    for f in fields:
+        if len(f) >= 4 and f[:2] == [40, 40] and f[-2:] == [41, 41]:
+            fin, evs, _ = SL.run("sh", "ZB", f[2:-2])
+            out.append((fin, SL.skeleton(evs)))
+    return out
 
 
 def script_texts(v, path="", out=None):
@@ -289,13 +319,7 @@ def bash_run(adv):
     return None
 
 
-def script_oracle(case, impl):
-    if not impl.startswith("(adv "):
-        return None      # PANIC / invalid configuration: not this property's subject
-    v = sx_parse(case)
-    shell = v[1]
-    r = core.sx_all(impl)
-    adv, inn = unhex(r[0][1]), unhex(r[1][1])
+def compare_scripts(shell, adv, inn):
     try:
         adv.decode("utf-8")
     except UnicodeDecodeError:
@@ -309,12 +333,29 @@ def script_oracle(case, impl):
                 "script offset %d, near %s" % (shell, k, off, _ctx(adv, off)))
     if a_fin != i_fin:
         return "[%s-L1] the script ends in lexer state %s (innocuous text: %s)" % (shell, a_fin, i_fin)
-    if [(t, s) for t, _, s in a_second] != [(t, s) for t, _, s in i_second]:
-        for (t, off, s), (t2, _, s2) in zip(a_second, i_second):
-            if (t, s) != (t2, s2):
-                return ("[%s-L2 %s] second-level structure of the literal ending at script offset %d differs from the "
-                        "one with innocuous text, near %s" % (shell, t, off, _ctx(adv, off)))
-        return "[%s-L2] number of second-level literals differs" % shell
+    for lvl, tags in (("L2", ("fish-a", "zsh-spec")), ("L3", ("zsh-action",))):
+        a2 = [x for x in a_second if x[0] in tags]
+        i2 = [x for x in i_second if x[0] in tags]
+        if [(t, s) for t, _, s in a2] != [(t, s) for t, _, s in i2]:
+            for (t, off, s), (t2, _, s2) in zip(a2, i2):
+                if (t, s) != (t2, s2):
+                    return ("[%s-%s %s] %s-level structure of the literal ending at script offset %d differs from "
+                            "the one with innocuous text, near %s"
+                            % (shell, lvl, t, "second" if lvl == "L2" else "third (eval'd action)", off, _ctx(adv, off)))
+            return "[%s-%s] number of %s literals differs" % (shell, lvl, lvl)
+    return None
+
+
+def script_oracle(case, impl):
+    if not impl.startswith("(adv "):
+        return None      # PANIC / invalid configuration: not this property's subject
+    v = sx_parse(case)
+    shell = v[1]
+    r = core.sx_all(impl)
+    adv, inn = unhex(r[0][1]), unhex(r[1][1])
+    msg = compare_scripts(shell, adv, inn)
+    if msg:
+        return msg
     if shell == "bash":
         if adv != inn:
             return "[bash] the bash script depends on descriptive text (bash emits names and possible values only)"
@@ -495,6 +536,16 @@ def streams(tier, rng):
 
 
 def classify_known(stream, case, impl, failure):
+    """C17-zsh-tooltip-dquote: the only complaint is at the third level (the eval'd `((...))` action of a zsh
+    spec) and it disappears when every '"' is deleted from the texts -- checked on the script the real generator
+    produces for the texts without '"' (harness output `nodq`), so any other violation in the same case still counts."""
+    if stream != "script" or not isinstance(failure, str) or not failure.startswith("[zsh-L3"):
+        return None
+    r = core.sx_all(impl)
+    if len(r) < 3 or r[2][0] != "nodq":
+        return None
+    if compare_scripts("zsh", unhex(r[2][1]), unhex(r[1][1])) is None:
+        return "C17-zsh-tooltip-dquote"
     return None
 
 
